@@ -188,10 +188,18 @@ fn fill_thread_stack(
     thread.stack.memory.rva = buffer.position() as u32;
 
     if let Ok((valid_stack_ptr, stack_len)) = dumper.get_stack_info(stack_ptr) {
-        let stack_len = if let MaxStackLen::Len(max_stack_len) = max_stack_len {
-            min(stack_len, max_stack_len)
-        } else {
-            stack_len
+        let (valid_stack_ptr, stack_len) = match max_stack_len {
+            MaxStackLen::Len(max_stack_len) if max_stack_len > 0 && stack_len > max_stack_len => {
+                // Skip the whole `max_stack_len`-sized chunks that lie below the stack pointer
+                // (like Breakpad does), so that the shortened copy still contains it.
+                let sp_offset = stack_ptr.saturating_sub(valid_stack_ptr);
+                let skipped = min(
+                    sp_offset - sp_offset % max_stack_len,
+                    stack_len - max_stack_len,
+                );
+                (valid_stack_ptr + skipped, max_stack_len)
+            }
+            _ => (valid_stack_ptr, stack_len),
         };
 
         let mut stack_bytes = PtraceDumper::copy_from_process(
